@@ -50,7 +50,10 @@ def run_C18(chk):
             elif r < 0.7: sec = rng.randrange(-5 * Num, 5 * Num + 1)
             else: sec = rng.randrange(I64MIN, I64MAX + 1)
             sec = min(max(sec, I64MIN), I64MAX)
-            lines.append('joinc %d %d %d %d %s' % (Num, lo, hi, sec, rep)); meta.append(('joinc', Num, lo, hi, sec))
+            # the femtosecond remainder parse() hands over is non-negative and must not influence the floor
+            jfs = rng.choice([0, 0, 1, 500000000000000, 999999999999999, rng.randrange(10**15)])
+            if rng.random() < 0.4 and Num > 1 and I64MIN <= (sec // Num) * Num: sec = (sec // Num) * Num      # exactly on a tick boundary
+            lines.append('joinc %d %d %d %d %s %d' % (Num, lo, hi, sec, rep, jfs)); meta.append(('joinc', Num, lo, hi, sec))
     for D in (10**3, 10**6, 10**9, 10**15):
         for _ in range(per // 4):
             lim = I64MAX // D
